@@ -100,6 +100,63 @@ def _keeps_live(ctx, fx, c, depth):
     return False
 
 
+IDTY = "context::id::ContextID"
+
+
+def _peel(ty):
+    ty = ty.strip()
+    while ty.startswith("&"):
+        ty = ty[1:].lstrip()
+        if ty.startswith("mut "):
+            ty = ty[4:]
+    return ty
+
+
+def _id_overwrite(locals_, place, valty):
+    """a ContextID-typed value stored through a projection of a local that is not itself an id: a field of an existing value
+    (a Context, a handle) is given another id after its birth"""
+    if len(place) < 2 or not (valty or "").startswith(IDTY):
+        return None
+    base = _peel(locals_[place[0]]["ty"])
+    if base.startswith(IDTY) or base.startswith("("):
+        return None
+    return base
+
+
+def check_id_fixed(ctx, fx, RULE, inst="id-fixed-at-birth"):
+    """The id a subscriber / an actor is known by is fixed when its context is born: nowhere in the crate is a ContextID stored
+    into a field of an already existing value (assignment through a projection, call result written to a projection,
+    mem::replace / swap / take through `&mut ContextID`). Birth itself is an aggregate (R09.6 / R15.1), not a field store."""
+    # positive control of the predicate (the expected count on the tree is zero)
+    pc = _id_overwrite([{"ty": "()"}, {"ty": "&mut context::Context<A>"}, {"ty": IDTY}], [1, "*", "f0"], IDTY) == "context::Context<A>" and _id_overwrite([{"ty": "()"}, {"ty": IDTY}], [1, "f0"], IDTY) is None
+    bad, n_fns, n_stores = [], 0, 0
+    for f in fx.d["fns"]:
+        b = ctx.body(fx, f)
+        n_fns += 1
+        for l, stores in b.partial.items():
+            for (bi, si, st) in stores:
+                n_stores += 1
+                r = st["r"]
+                vt = None
+                if r["k"] == "use" and isinstance(r.get("o"), dict) and r["o"].get("p"):
+                    op = r["o"]["p"]
+                    vt = b.locals[op[0]]["ty"] if len(op) == 1 else None
+                    if vt is None and any(o.kind == "call" and (b.call_at(o).get("destty") or "").startswith(IDTY) for o in b.origins(r["o"], through_calls=False)):
+                        vt = IDTY
+                base = _id_overwrite(b.locals, st["p"], vt)
+                if base:
+                    bad.append((f["def"], st.get("l"), "field of %s assigned" % base))
+        for bi, t in b.normal_calls():
+            n_stores += 1
+            base = _id_overwrite(b.locals, t.get("dest") or [], t.get("destty"))
+            if base:
+                bad.append((f["def"], t["l"], "call result written into a field of %s" % base))
+            if any(_peel(a).startswith(IDTY) and a.strip().startswith("&mut") for a in t.get("argtys", [])) and not (f.get("impl_self") or "").startswith(IDTY):
+                bad.append((f["def"], t["l"], "%s given `&mut ContextID`" % (t.get("callee") or "?")))
+    ctx.require(pc and not bad, RULE, inst, "the id of an existing context / handle is overwritten after birth (a subscription, child or registry entry made under the old id is no longer reachable through it; subscribing again makes a second entry for the same mailbox): %s" % (bad if pc else "predicate self-check failed"), fn=bad[0][0] if bad else None, site=bad[0][1] if bad else "crate", detail={"functions": n_fns, "projection_stores_and_calls": n_stores, "positive_control": "synthetic `(*_1).0 = move _2` with _1: &mut Context<A>, _2: ContextID matches; a store into a ContextID itself does not"})
+    return n_fns
+
+
 def run(ctx):
     ctx.explanation = EXPL
     ctx.assumptions = ["C01 for the broker's mailbox", "HashMap semantics"]
@@ -119,6 +176,11 @@ def run_cfg(ctx, fx):
     # unsubscribe / re-subscribe made through a handle derived from the address meet in the same table entry
     from props import c15 as _c15
     _c15.check_birth(ctx, fx, fx.cfg, "R09.6")
+    # R09.8 "subscribing again does not duplicate deliveries" / "unsubscribe ends them": the id under which the table knows a
+    # subscriber never changes while its mailbox lives — no ContextID is stored into a field of an existing value (a restart that
+    # gives the context a new id makes `subscribe` in started() add a second live entry for the same mailbox)
+    n_ = check_id_fixed(ctx, fx, "R09.8")
+    ctx.floor("R09.8", "function bodies scanned for id stores (%s)" % fx.cfg, n_, 100)
     # R09.7 "delivered to every subscriber that is still alive": the broker reaches a subscriber by upgrading the weak sender it was
     # given, which needs both halves of the subscriber's channel alive — so whatever strong handle keeps the subscriber alive must
     # keep both (shared with C15; a Caller that pins only the waiting half leaves a live subscriber that every publication skips)
